@@ -373,8 +373,17 @@ def features(d=None):
     add('1.27 all classes in provider summaries', 27,
         lambda v, s: Req('GET', ac, s),
         summaries(lambda ps: set(ps[R]['resources']) ==
-                  {'VCPU', 'MEMORY_MB'}),
+                  {'VCPU', 'MEMORY_MB', 'DISK_GB'}),
         summaries(lambda ps: set(ps[R]['resources']) == {'VCPU'}), 10)
+    # (R holds a DISK_GB inventory without capacity: the request's DISK_GB is
+    # supplied by the sharing provider, yet DISK_GB is a requested class)
+    add('1.27 all classes: a requested class the provider holds but does '
+        'not supply', 27,
+        lambda v, s: Req('GET', ac + ',DISK_GB:1', s),
+        summaries(lambda ps: set(ps[R]['resources']) ==
+                  {'VCPU', 'MEMORY_MB', 'DISK_GB'}),
+        summaries(lambda ps: set(ps[R]['resources']) ==
+                  {'VCPU', 'DISK_GB'}), 10)
     add('1.29 nested candidates', 29,
         lambda v, s: Req('GET', '/allocation_candidates?resources='
                          'VCPU:1,CUSTOM_A:1', s),
@@ -506,6 +515,10 @@ def run_shard(spec, res):
             {'resource_provider_generation': 0,
              'inventories': {'SRIOV_NET_VF': {'total': 8}}})
         assert rr.status == 200, rr.status
+        rr = svc.client.call(
+            'POST', '/resource_providers/%s/inventories' % R,
+            {'resource_class': 'DISK_GB', 'total': 1, 'reserved': 1})
+        assert rr.status == 201, (rr.status, rr.body)
         state = spec.get('state', 0)
         if state == 1:
             # a second prepared state: more consumers / providers
